@@ -887,59 +887,25 @@ func modeC08(e *Env) {
 	// repeated values of every kind (zero values and others): values an implementation may be tempted to hand out from a
 	// shared constant or from a memo of what it decoded last
 	for i := 0; i < e.N(12, 120); i++ {
-		cfg := cfgs[e.R.Intn(len(cfgs))]
-		l := &Log{Cfg: cfg}
-		t := &Table{ID: 301, DB: "dz", Name: "tzero"}
+		var cols []Col
 		for c := 0; c < 2+e.R.Intn(5); c++ {
-			col := randomCol(e.R)
-			col.Name = "z" + itoa(c)
-			col.Nullable = true
-			t.Cols = append(t.Cols, col)
+			cols = append(cols, randomCol(e.R))
 		}
-		f := &LogFile{Name: "mysql-bin.000001"}
-		l.Files = []*LogFile{f}
-		ts := uint32(1600000000)
-		// per column a small pool of values (the zero value and two others) that come back in later rows and transactions:
-		// a value an implementation remembers from an earlier row must not be handed out again
-		pool := make([][][]byte, len(t.Cols))
-		for ci := range t.Cols {
-			pool[ci] = [][]byte{zeroValue(&t.Cols[ci]), genCell(e.R, &t.Cols[ci], 12), genCell(e.R, &t.Cols[ci], 12)}
-		}
-		for u := 0; u < 3; u++ {
-			ev := &Ev{K: pickS(e.R, "write", "update"), TS: ts, Tbl: t}
-			for rw := 0; rw < 2; rw++ {
-				mk := func() []Cell {
-					var img []Cell
-					for ci := range t.Cols {
-						raw := pool[ci][0]
-						switch e.R.Intn(8) {
-						case 0:
-							raw = genCell(e.R, &t.Cols[ci], 12)
-						case 1, 2, 3:
-							raw = pool[ci][1+e.R.Intn(2)]
-						}
-						img = append(img, Cell{St: "val", Bytes: append([]byte(nil), raw...)})
-					}
-					return img
-				}
-				none := make([]Cell, len(t.Cols))
-				for ci := range none {
-					none[ci] = Cell{St: "absent"}
-				}
-				rp := RowPair{B: none, A: mk()}
-				if ev.K == "update" {
-					rp.B = mk()
-				}
-				ev.Rows = append(ev.Rows, rp)
-			}
-			f.Units = append(f.Units, &Unit{U: "autorow", Evs: []*Ev{{K: "tablemap", TS: ts, Tbl: t}, ev}})
-		}
-		l.Layout()
-		a := defaultAttempt()
-		a.Scribble = true
 		id++
-		RunStreamScenario(e.Rec, &StreamScenario{ID: id, Fam: "c08", Log: l, Start: l.Boundaries()[0], ServerID: 21,
-			Attempts: []AttemptPlan{a}, Note: "repeated-values"})
+		repeatedValues(e, id, cfgs[e.R.Intn(len(cfgs))], cols, "repeated-values")
+	}
+	// the same, walking every column shape (one per branch of the decoder: every width, every fraction length, every
+	// DECIMAL with whole and partial groups of digits on either side of the point, ...), so that a decoder path that
+	// hands out shared storage is visited whatever the seed
+	shapes := colShapes()
+	e.R.Shuffle(len(shapes), func(i, j int) { shapes[i], shapes[j] = shapes[j], shapes[i] })
+	for i := 0; i < len(shapes); i += 5 {
+		j := i + 5
+		if j > len(shapes) {
+			j = len(shapes)
+		}
+		id++
+		repeatedValues(e, id, cfgs[e.R.Intn(len(cfgs))], shapes[i:j], "every-shape")
 	}
 	// zero timestamps with and without fractions: values that an implementation may be tempted to share
 	for i := 0; i < e.N(6, 40); i++ {
@@ -992,6 +958,60 @@ func modeC08(e *Env) {
 		RunStreamScenario(e.Rec, &StreamScenario{ID: id, Fam: "c08", Log: l, Start: l.Boundaries()[0], ServerID: 21,
 			Attempts: []AttemptPlan{a}, Note: "zero-timestamps"})
 	}
+}
+
+// repeatedValues streams three transactions of two rows each over a table with the given columns, every column drawing
+// from a small pool of values (the zero value and two others) that come back in later rows and transactions, with a
+// handler that scribbles over what it was handed.
+func repeatedValues(e *Env, id int, cfg WireCfg, cols []Col, note string) {
+	l := &Log{Cfg: cfg}
+	t := &Table{ID: 301, DB: "dz", Name: "tzero"}
+	for c, col := range cols {
+		col.Name = "z" + itoa(c)
+		col.Nullable = true
+		t.Cols = append(t.Cols, col)
+	}
+	f := &LogFile{Name: "mysql-bin.000001"}
+	l.Files = []*LogFile{f}
+	ts := uint32(1600000000)
+	pool := make([][][]byte, len(t.Cols))
+	for ci := range t.Cols {
+		pool[ci] = [][]byte{zeroValue(&t.Cols[ci]), genCell(e.R, &t.Cols[ci], 12), genCell(e.R, &t.Cols[ci], 12)}
+	}
+	for u := 0; u < 3; u++ {
+		ev := &Ev{K: pickS(e.R, "write", "update"), TS: ts, Tbl: t}
+		for rw := 0; rw < 2; rw++ {
+			mk := func() []Cell {
+				var img []Cell
+				for ci := range t.Cols {
+					raw := pool[ci][0]
+					switch e.R.Intn(8) {
+					case 0:
+						raw = genCell(e.R, &t.Cols[ci], 12)
+					case 1, 2, 3:
+						raw = pool[ci][1+e.R.Intn(2)]
+					}
+					img = append(img, Cell{St: "val", Bytes: append([]byte(nil), raw...)})
+				}
+				return img
+			}
+			none := make([]Cell, len(t.Cols))
+			for ci := range none {
+				none[ci] = Cell{St: "absent"}
+			}
+			rp := RowPair{B: none, A: mk()}
+			if ev.K == "update" {
+				rp.B = mk()
+			}
+			ev.Rows = append(ev.Rows, rp)
+		}
+		f.Units = append(f.Units, &Unit{U: "autorow", Evs: []*Ev{{K: "tablemap", TS: ts, Tbl: t}, ev}})
+	}
+	l.Layout()
+	a := defaultAttempt()
+	a.Scribble = true
+	RunStreamScenario(e.Rec, &StreamScenario{ID: id, Fam: "c08", Log: l, Start: l.Boundaries()[0], ServerID: 21,
+		Attempts: []AttemptPlan{a}, Note: note})
 }
 
 // ---- C15 (stream half): interleavings and re-announcements of table maps ----------------------------
